@@ -3,7 +3,7 @@
    assumed literals, from every Clean state, and re-establishes Clean. *)
 From Coq Require Import List ZArith Bool Lia.
 From DD Require Import Model.Circuit Model.Query Proofs.PassLemmas Proofs.Enum Proofs.Semantics
-  Proofs.CountsA Proofs.QueryDefs Proofs.C02Basics Proofs.C02Marking.
+  Proofs.CountsA Proofs.QueryDefs Proofs.C02Basics Proofs.C02Marking Proofs.Live Proofs.LiveCounts.
 Import ListNotations.
 Open Scope Z_scope.
 
@@ -273,15 +273,11 @@ Qed.
 
 (* ================= core shortcuts ================= *)
 
-Lemma reduce_countsA (A : cfg) : countsA (reduce_query d A) C = countsA A C.
-Proof.
-  apply countsA_ext. intros l Hl. apply eq_true_iff_eq. rewrite !memZ_In.
-  unfold reduce_query. rewrite filter_In. split; [tauto|]. intros H. split; [exact H|].
-  apply negb_true_iff. destruct (has_no_effect d (- l)) eqn:E; [|reflexivity]. exfalso.
-  unfold has_no_effect in E. apply andb_true_iff in E. destruct E as [_ E].
-  cbn [core build] in E. apply memZ_In in E. apply core_spec in E. destruct E as [_ E].
-  rewrite Z.opp_involutive in E. contradiction.
-Qed.
+(* dropping the core literals of a query changes the count under the assumptions at no
+   reachable node (Proofs/LiveCounts.v), in particular not at the root *)
+Lemma reduce_countsA (A : cfg) :
+  nth (root C) (countsA (reduce_query d A) C) 0 = nth (root C) (countsA A C) 0.
+Proof. exact (reduce_countsA_root C n Hok Hne A). Qed.
 
 Lemma enum_lits_are_leaves : forall i, (i < length C)%nat ->
   forall c, In c (nth i (enums C) []) -> forall x, In x c -> In (Lit x) C.
@@ -303,18 +299,19 @@ Proof.
 Qed.
 
 Lemma unsat_zero (A : cfg) (f : Z) :
-  in_range n A -> In f A -> ~ In (Lit f) C -> nth (root C) (countsA A C) 0 = 0.
+  in_range n A -> In f A -> (forall c, In c (enum_root C) -> ~ In f c) ->
+  nth (root C) (countsA A C) 0 = 0.
 Proof.
   intros HA Hf Hnf. rewrite (countsA_filter A C Hok (root C) Hroot).
   rewrite filter_all_false; [reflexivity|]. intros c Hc.
-  assert (HG : Good c (last (varss C) [])) by (apply (root_good C n Hwf); now rewrite enum_root_nth).
+  assert (Hc' : In c (enum_root C)) by now rewrite enum_root_nth.
+  assert (HG : Good c (last (varss C) [])) by (apply (root_good C n Hwf); exact Hc').
   pose proof (complete_range C n (wf_complete C n Hwf)) as HV.
   destruct HG as [_ Hcov].
   assert (Hin : In (Z.abs f) (map Z.abs c)) by (apply Hcov, HV, HA, Hf).
   apply in_map_iff in Hin. destruct Hin as [x [Habs Hx]].
-  pose proof (enum_lits_are_leaves (root C) Hroot c Hc x Hx) as Hleaf.
   assert (Hxf : x = - f).
-  { assert (x = f \/ x = - f) as [->| ->] by lia; [contradiction|reflexivity]. }
+  { assert (x = f \/ x = - f) as [->| ->] by lia; [exfalso; exact (Hnf c Hc' Hx)|reflexivity]. }
   subst x. destruct (okA A c) eqn:Eo; [|reflexivity]. exfalso.
   unfold okA in Eo. rewrite forallb_forall in Eo. specialize (Eo _ Hx).
   rewrite Z.opp_involutive in Eo. apply negb_true_iff, memZ_false in Eo. contradiction.
@@ -325,8 +322,9 @@ Lemma not_sat_zero (A : cfg) :
 Proof.
   intros HA H. unfold query_is_not_sat in H. apply existsb_exists in H.
   destruct H as [f [Hf Hu]]. unfold makes_unsat in Hu. apply andb_true_iff in Hu.
-  destruct Hu as [_ Hu]. cbn [core build] in Hu. apply memZ_In, core_spec in Hu.
-  destruct Hu as [_ Hu]. rewrite Z.opp_involutive in Hu. exact (unsat_zero A f HA Hf Hu).
+  destruct Hu as [_ Hu]. cbn [core build] in Hu. apply memZ_In, (core_spec C n (- f) Hok Hne) in Hu.
+  destruct Hu as [_ Hu]. apply (unsat_zero A f HA Hf). intros c Hc Hin. apply (Hu c Hc).
+  now rewrite Z.opp_involutive.
 Qed.
 
 Lemma rc_root : rc d = nth (root C) (counts C) 0.
@@ -355,10 +353,11 @@ Proof.
       rewrite EI. discriminate.
 Qed.
 
-Lemma reduce_single_core (f : Z) : has_no_effect d f = true -> countsA [f] C = counts C.
+Lemma reduce_single_core (f : Z) : has_no_effect d f = true ->
+  nth (root C) (countsA [f] C) 0 = nth (root C) (counts C) 0.
 Proof.
   intros H. rewrite <- (reduce_countsA [f]). unfold reduce_query. cbn [filter]. rewrite H.
-  cbn [negb]. apply countsA_nil.
+  cbn [negb]. now rewrite countsA_nil.
 Qed.
 
 Lemma single_spec (f : Z) (s : scratch) :
@@ -368,7 +367,7 @@ Lemma single_spec (f : Z) (s : scratch) :
 Proof.
   intros HA HC. unfold card_of_feature_with_marker.
   destruct (has_no_effect d f) eqn:E1.
-  - cbn [fst snd]. split; [|exact HC]. now rewrite reduce_single_core.
+  - cbn [fst snd]. split; [|exact HC]. now rewrite reduce_single_core, rc_root.
   - destruct (makes_unsat d f) eqn:E2.
     + cbn [fst snd]. split; [|exact HC]. symmetry. apply not_sat_zero; [exact HA|].
       unfold query_is_not_sat. cbn [existsb]. now rewrite E2.
